@@ -943,6 +943,9 @@ impl<T: RealNumber> BaseMatrix<T> for DenseMatrix<T> {
     }
 
     fn max_diff(&self, other: &Self) -> T {
+        if self.nrows != other.nrows || self.ncols != other.ncols {
+            panic!("Can't compare matrices of different sizes.");
+        }
         let mut max_diff = T::zero();
         for i in 0..self.values.len() {
             max_diff = max_diff.max((self.values[i] - other.values[i]).abs());
